@@ -79,6 +79,7 @@ Proof.
   intros D. revert w cwd. induction bl as [|[[d src] dst] rest IH]; intros w cwd U; simpl.
   - intros E; inversion E; subst; assumption.
   - destruct (if v_backlog_chdir (c_var c) then chdir (w_fs w) d else Some cwd); [|intros E; inversion E; subst; assumption].
+    destruct (backlog_verify (c_var c) (w_fs w) d src dst); [intros E; inversion E; subst; assumption|].
     destruct (renamer c w r src dst false) as [w1 [e1|]] eqn:R;
       pose proof (renamer_untouched _ _ _ _ _ _ _ _ _ D U R) as U1.
     + destruct (is_file_exists e1); [|intros E; inversion E; subst; assumption].
